@@ -453,7 +453,7 @@ def run(tier: str, replay: str | None = None):
 
     # ---- entry points and overrides on a sample
     ep_bad, ov_bad, ov_other = [], [], {}
-    n_ep = n_ov = 0
+    n_ep = n_ov = n_ov_rej = 0
     if pairs:
         sample = [pairs[i] for i in sorted(rng.sample(range(len(pairs)), min(len(pairs), 600 if not thorough else 4000)))]
         for e, a in sample:
@@ -471,6 +471,7 @@ def run(tier: str, replay: str | None = None):
                 ov_other[key] = ov_other.get(key, 0) + val
             for (e, a), ok in zip(chunk, vs):
                 n_ov += 1
+                n_ov_rej += int(not ok)
                 direct = impl_accepts(B.impl_signature(e), B.impl_signature(a))
                 if ok != direct:
                     ov_bad.append({"input": {"e": e, "a": a, "text": pair_text(e, a)}, "Signature.can_assign": direct, "override_check_accepts": ok})
@@ -512,6 +513,7 @@ def run(tier: str, replay: str | None = None):
         entry_points_checked=n_ep,
         entry_point_mismatches=len(ep_bad),
         overrides_checked=n_ov,
+        overrides_rejected=n_ov_rej,
         override_mismatches=len(ov_bad),
         override_other_codes=ov_other,
         exhaustive=False,
